@@ -300,7 +300,13 @@ func (sm *SecureMessaging) Encode(cApdu *CApdu) (out *CApdu, err error) {
 		return nil, err
 	}
 
-	out = NewCApdu(CLA_MASK, cApdu.ins, cApdu.p1, cApdu.p2, nodes.Encode(), calcSmLe(cApdu))
+	smData := nodes.Encode()
+	if len(smData) > 65535 {
+		// Lc of an extended-length APDU is 2 bytes; a longer body would be sent with a wrapped Lc
+		return nil, fmt.Errorf("[SM.Encode] protected command data too long (%d bytes)", len(smData))
+	}
+
+	out = NewCApdu(CLA_MASK, cApdu.ins, cApdu.p1, cApdu.p2, smData, calcSmLe(cApdu))
 
 	slog.Debug("Encode", "In", cApdu.String(), "Out", out.String(), "Out(bytes)", utils.BytesToHex(out.Encode()))
 
